@@ -5,7 +5,7 @@
 # writes eval.txt there.  /repo is restored afterwards.
 id=$1; wt=${2:-/tmp/wt-$id}
 if [ $# -ge 2 ]; then shift 2; else shift 1; fi
-dst=/verif/seeded/$id
+dst=/verif/seeded/${DST:-$id}
 mkdir -p $dst
 if [ -d "$wt/SEEDED" ]; then cp $wt/SEEDED/patch.diff $wt/SEEDED/demo.py $wt/SEEDED/notes.md $dst/ 2>/dev/null; fi
 cd /repo || exit 2
